@@ -77,6 +77,28 @@ func runHistories(b *harness.B) {
 				}
 			}
 		}
+		// a client that OWNS the elements it is handed: the created elements of an update are taken over with Move()
+		// (no copy - the update is not used again) and kept current in place with UpdateElementProof. Each stays a
+		// proof of its own element whatever happens to the elements that were created beside it.
+		type ownedSC struct {
+			e  types.SiacoinElement
+			at uint64
+		}
+		var owned []*ownedSC
+		ownedGone := map[types.SiacoinOutputID]bool{}
+		checkOwned := func(cs consensus.State, when string) {
+			for _, o := range owned {
+				if ownedGone[o.e.ID] {
+					continue
+				}
+				b.Count("owned_elements_verified", 1)
+				if !elems.Member(cs.Elements, elems.Siacoin(o.e), o.e.StateElement, false) {
+					b.Violate("C05/proof/siacoin/owned-element-does-not-verify/"+when, fmt.Sprintf("an element taken over with Move() from the update that created it (height %d, leaf %d) and kept current in place no longer verifies %s at height %d", o.at, o.e.StateElement.LeafIndex, when, cs.Index.Height), map[string]any{"height": cs.Index.Height, "created_at": o.at, "leaf": o.e.StateElement.LeafIndex})
+					owned = nil
+					return
+				}
+			}
+		}
 		c.OnStoreApplied = func(ev chaingen.ApplyEvent) {
 			if len(ev.Kinds) >= 3 {
 				b.Sample(chaingen.DescribeBlock(ev.Prev, ev.Block, ev.Kinds))
@@ -84,6 +106,21 @@ func runHistories(b *harness.B) {
 			mon.OnApply(ev)
 			mon.CheckStore(c.S, ev.Next, "after-apply")
 			spent.onApply(ev)
+			for _, o := range owned {
+				ev.AU.UpdateElementProof(&o.e.StateElement)
+			}
+			for _, d := range ev.AU.SiacoinElementDiffs() {
+				switch {
+				case d.Spent && !d.Created:
+					ownedGone[d.SiacoinElement.ID] = true
+				case d.Created && !d.Spent:
+					owned = append(owned, &ownedSC{d.SiacoinElement.Move(), ev.Next.Index.Height})
+				}
+			}
+			if len(owned) > 96 {
+				owned = owned[len(owned)-96:]
+			}
+			checkOwned(ev.Next, "after-apply")
 			b.Eval(1)
 			b.Count("blocks_applied", 1)
 			b.SetAdd("eras", chaingen.Era(net.N, ev.Next.Index.Height))
@@ -95,6 +132,22 @@ func runHistories(b *harness.B) {
 			mon.OnRevert(ev)
 			mon.CheckStore(c.S, ev.Prev, "after-revert")
 			spent.onRevert(ev)
+			// the owning client: elements created by the reverted block are gone, the others are walked back
+			keep := owned[:0]
+			for _, o := range owned {
+				if o.at >= ev.Reverted.Index.Height {
+					continue
+				}
+				ev.RU.UpdateElementProof(&o.e.StateElement)
+				keep = append(keep, o)
+			}
+			owned = keep
+			for _, d := range ev.RU.SiacoinElementDiffs() {
+				if d.Spent && !d.Created {
+					delete(ownedGone, d.SiacoinElement.ID)
+				}
+			}
+			checkOwned(ev.Prev, "after-revert")
 			b.Eval(1)
 			b.Count("blocks_reverted", 1)
 		}
@@ -228,7 +281,7 @@ func main() {
 		},
 		MinEvals:    500,
 		MinDistinct: 100,
-		Require:     []string{"high_bit_cases_reaching_the_unassigned_sentinel_index", "high_bit_created_elements_verified_one_block_later", "blocks_applied", "blocks_reverted", "store_elements_verified", "forest_root_comparisons", "spent_elements_verified", "tree_nodes_row0_checked", "shape_cases", "high_bit_cases", "high_bit_batches_run_with_32_bit_int"},
+		Require:     []string{"high_bit_cases_reaching_the_unassigned_sentinel_index", "high_bit_created_elements_verified_one_block_later", "blocks_applied", "blocks_reverted", "store_elements_verified", "forest_root_comparisons", "spent_elements_verified", "tree_nodes_row0_checked", "shape_cases", "high_bit_cases", "high_bit_batches_run_with_32_bit_int", "owned_elements_verified"},
 		Extra: func(m *harness.Result, cov map[string]any) {
 			cov["exhaustive_subspace"] = "shape enumerator: all leaf counts up to the bound and all spent-subsets x added-counts for small accumulators (batch 0); see counters shape_*"
 		},
